@@ -23,6 +23,18 @@ def _reach_without_edge(fn, cut, target):
     return False
 
 
+def split_logical(cond, pol):
+    """`a && b` taken true establishes a and b; `a || b` taken false refutes both.
+    (When the right operand needs temporaries clang evaluates the whole logical expression in
+    the join block, so the branch condition is the `&&`/`||` itself.)"""
+    c = unwrap_casts(cond)
+    if isinstance(c, dict) and c.get('k') == 'bin' and c.get('op') == '&&' and pol == 'T':
+        return split_logical(c.get('l'), 'T') + split_logical(c.get('r'), 'T')
+    if isinstance(c, dict) and c.get('k') == 'bin' and c.get('op') == '||' and pol == 'F':
+        return split_logical(c.get('l'), 'F') + split_logical(c.get('r'), 'F')
+    return [(cond, pol)]
+
+
 def edge_guards(fn, target):
     """Conditions that hold on EVERY path from entry to `target`.
     Returns list of (cond_expr_resolved, 'T'|'F', guard_block)."""
@@ -50,7 +62,8 @@ def edge_guards(fn, target):
             # taken whenever b is executed, but the condition is still
             # established only if b dominates target through this edge
             if not _reach_without_edge(fn, (b, s), target) and (b != target):
-                out.append((cond, pol, b))
+                for c2, p2 in split_logical(cond, pol):
+                    out.append((c2, p2, b))
     cache[target] = out
     return out
 
@@ -141,7 +154,7 @@ def origin(fn, x, binding=None, depth=0):
             init = defs.decl[x['d']]
             if init is None:
                 return x
-            return {'k': 'local', 'n': x['n'], 'd': x['d'],
+            return {'k': 'local', 'n': x['n'], 'd': x['d'], 'tcls': x.get('tcls'),
                     'e': origin(fn, init, binding, depth + 1)}
         if dk == 'bind' and x.get('dd') in defs.decomp:
             init = defs.decomp[x['dd']]
@@ -168,6 +181,19 @@ def unwrap(x):
     while isinstance(x, dict):
         k = x.get('k')
         if k in ('local', 'paramof', 'icast', 'cast', 'move', 'defarg'):
+            x = x.get('e')
+        elif k == 'ctor' and x.get('copy') and len(x.get('args', [])) == 1:
+            x = x['args'][0]
+        else:
+            break
+    return x
+
+
+def unwrap_casts(x):
+    """strip casts/moves/copies only (named locals and helper parameters are kept)"""
+    while isinstance(x, dict):
+        k = x.get('k')
+        if k in ('icast', 'cast', 'move', 'defarg'):
             x = x.get('e')
         elif k == 'ctor' and x.get('copy') and len(x.get('args', [])) == 1:
             x = x['args'][0]
@@ -265,7 +291,7 @@ def comparison(cond, pol):
     c = cond
     neg = (pol == 'F')
     while True:
-        c = unwrap(c)
+        c = unwrap_casts(c)
         if isinstance(c, dict) and c.get('k') == 'un' and c.get('op') == '!':
             neg = not neg
             c = c.get('e')
